@@ -21,6 +21,9 @@ struct AppSt {
     ident: Vec<u16>,
     last_da: Option<u8>,
     wraps_after_quiet: u32,
+    same_in_a_row: u32,
+    /// The last probe was answered or timed out (as opposed to abandoned with the token).
+    completed: bool,
     verdict_done: bool,
     probes: u64,
 }
@@ -53,6 +56,8 @@ impl ScanMonitor {
                     ident: vec![0; 128],
                     last_da: None,
                     wraps_after_quiet: 0,
+                    same_in_a_row: 0,
+                    completed: false,
                     verdict_done: false,
                     probes: 0,
                 });
@@ -108,12 +113,32 @@ impl Monitor for ScanMonitor {
             if da < prev && w.now >= self.quiet_from {
                 a.wraps_after_quiet += 1;
             }
+            // the sweep moves on whatever the answer was (a reply that is no status / diagnostics
+            // response, a time-out, a token lost in between)
+            if da == prev && a.completed {
+                // (a probe that was abandoned because the token got lost is sent again; one that was
+                // answered or timed out is over)
+                a.same_in_a_row += 1;
+                if a.same_in_a_row >= 2 {
+                    w.violate(
+                        self.prop,
+                        "scan.progress",
+                        "sweep-stuck",
+                        Some(master),
+                        format!("{:?} of #{master} probes #{da} again although its previous probe of this address was answered or timed out ({} times in a row): the sweep does not advance", a.kind, a.same_in_a_row),
+                    );
+                    return;
+                }
+            } else if da != prev {
+                a.same_in_a_row = 0;
+            }
             if da != prev && da != (prev + 1) % 126 {
                 w.violate(self.prop, "scan.range", "sweep-skips-addresses", Some(master), format!("{:?} of #{master} probes #{da} after #{prev}", a.kind));
                 return;
             }
         }
         a.last_da = Some(da);
+        a.completed = false;
     }
 
     fn on_poll(&mut self, w: &World, p: &PollInfo) {
@@ -126,6 +151,9 @@ impl Monitor for ScanMonitor {
             let kind = self.apps[ai].kind;
             // expected event of this poll from the call log
             let mut expected: Option<ScanEv> = None;
+            if p.calls.iter().any(|c| matches!(c, AppCall::Reply { app: ca, .. } | AppCall::Timeout { app: ca, .. } if *ca == app)) {
+                self.apps[ai].completed = true;
+            }
             for c in p.calls {
                 match c {
                     AppCall::Reply { app: ca, addr, frame } if *ca == app => {
